@@ -71,7 +71,7 @@ inductive Walk (α : Type)
   | fail
   | annErr
   | exc (e : Exc) (leaked : α)
-  deriving Repr
+  deriving Repr, DecidableEq
 
 abbrev Single := List (Key × Nat)
 abbrev Variadic := List (Key × (Bool × List Nat))
